@@ -8,12 +8,13 @@ import os
 import sys
 import time
 
-from harness.props import c19_common, c19_fp, c19_hdr, c19_iof, c19_merge, c19_sma, c19_split, c19_sw
+from harness.props import c19_common, c19_fp, c19_hdr, c19_iof, c19_merge, c19_sma, c19_split, c19_sw, c19_widths, c19_groups
 
 MODEL_PROPS = ["C19"]
 LEVEL = "proof"
 
-UNITS = [c19_sma, c19_fp, c19_merge.RM, c19_merge.MP, c19_iof, c19_split.SP, c19_split.LM, c19_sw, c19_hdr]
+UNITS = [c19_sma, c19_fp, c19_groups.FG, c19_merge.RM, c19_merge.MP, c19_groups.LH, c19_iof, c19_widths.WD, c19_widths.CT, c19_split.SP, c19_split.LM, c19_sw,
+         c19_hdr]
 
 
 def run(ctx):
